@@ -24,6 +24,10 @@ pub fn build(ctl: &'static Ctrl, params: &Value) -> Instance {
     let npoll = params["npoll"].as_u64().unwrap_or(1) as usize;
     let owner_co = params["owner_co"].as_bool().unwrap_or(false);
     let panic_arm = params["panic_arm"].as_i64().unwrap_or(-1);
+    // arm that panics in its *top* half, and arms whose top half blocks for ever (until cancelled)
+    let panic_top = params["panic_top"].as_i64().unwrap_or(-1);
+    let block_top: Vec<usize> = params["block_top"].as_array().map(|a| a.iter().map(|v| v.as_u64().unwrap() as usize).collect()).unwrap_or_default();
+    let never = Arc::new(may::sync::Semphore::new(0));
     let sh = Arc::new(Shared {
         top: (0..narms).map(|_| AtomicUsize::new(0)).collect(),
         bot: (0..narms).map(|_| AtomicUsize::new(0)).collect(),
@@ -44,12 +48,20 @@ pub fn build(ctl: &'static Ctrl, params: &Value) -> Instance {
                     let sh3 = shs.clone();
                     let n = nev2[i];
                     let idx = i + 1;
+                    let never2 = never.clone();
+                    let blocks = block_top.contains(&i);
                     cq.add(i, move |es| {
                         ctl.enroll_co(idx);
                         let _g = fin_guard(ctl, idx);
                         let es = es; // dropped before the guard: EventSender::drop stays under the baton
                         for _k in 0..n {
                             may::verif::pt("cqa.top", 0, 0, 0);
+                            if panic_top == i as i64 {
+                                panic!("arm panic in top half");
+                            }
+                            if blocks {
+                                never2.wait();
+                            }
                             sh3.top[i].fetch_add(1, SeqCst);
                             es.send(0);
                             may::verif::pt("cqa.bottom", 0, 0, 0);
@@ -105,7 +117,7 @@ pub fn build(ctl: &'static Ctrl, params: &Value) -> Instance {
             return;
         }
         if let Err(e) = r {
-            if panic_arm < 0 {
+            if panic_arm < 0 && panic_top < 0 {
                 std::panic::resume_unwind(e);
             } else {
                 shs.got.lock().unwrap().push(usize::MAX); // the arm's panic was re-raised in the poller
@@ -142,6 +154,9 @@ pub fn build(ctl: &'static Ctrl, params: &Value) -> Instance {
             }
             match &out.end {
                 End::Finished => {
+                    if panic_top >= 0 && !sh4.got.lock().unwrap().contains(&usize::MAX) {
+                        v.push(Violation { kind: "panic_not_reraised".into(), detail: format!("arm m{} panicked in its top half but the poller did not see the panic", panic_top + 1) });
+                    }
                     if panic_arm >= 0 && sh4.bot[panic_arm as usize].load(SeqCst) > 0 && !sh4.got.lock().unwrap().contains(&usize::MAX) {
                         v.push(Violation { kind: "panic_not_reraised".into(), detail: format!("arm m{} panicked in its bottom half but the poller did not see the panic", panic_arm + 1) });
                     }
